@@ -42,6 +42,11 @@ def ansStr : Option (List String) → String
   | none => "!"
   | some l => namesStr l
 
+def answerStr : Answer String → String
+  | .diverges => "~"
+  | .fails => "!"
+  | .names l => namesStr l
+
 /-- the answers in the harness's format, classes in the order of the case line -/
 def answers (fs : List F) (t : Tree String) : List String :=
   fs.flatMap fun f =>
@@ -50,8 +55,8 @@ def answers (fs : List F) (t : Tree String) : List String :=
       s!"sub:{c}={namesStr (subtypes up fs t f.cls)}" ] ++
     -- fields first, then procedures: the order in which the harness renders and asks them
     ((f.members.filter isField) ++ (f.members.filter (fun m => !isField m))).flatMap fun m =>
-      [ s!"up:{c}.{up m}={ansStr (memberSupertypes up fs t f.cls m)}",
-        s!"dn:{c}.{up m}={namesStr (memberSubtypes up fs t f.cls m)}" ]
+      [ s!"up:{c}.{up m}={answerStr (memberSupertypes up fs t (t.ids.length + 1) f.cls m)}",
+        s!"dn:{c}.{up m}={answerStr (memberSubtypes up fs t (t.ids.length + 1) f.cls m)}" ]
 where isField (m : String) : Bool := m.startsWith "f" || m.startsWith "F"
 
 /-! the serialised scheduler of the harness: a chunk runs from one hand-over point (parked
